@@ -231,17 +231,18 @@ func groupJSON(g groupDef) []byte {
 
 // world is the materialised environment of the current history.
 type world struct {
-	t       *tr.Trace
-	def     envDef
-	dir     string // groups
-	data    string // config.json, tokens.jsonl
-	base    string
-	secrets map[string]bool
-	known   map[string]bool // token names known to the driver
-	last    string          // last state digest printed
-	cur     *snap           // what is on disk now, if known
-	future  string
-	past    string
+	t          *tr.Trace
+	def        envDef
+	dir        string // groups
+	data       string // config.json, tokens.jsonl
+	base       string
+	secrets    map[string]bool
+	known      map[string]bool // token names known to the driver
+	last       string          // last state digest printed
+	cur        *snap           // what is on disk now, if known
+	faultLimit int64           // >= 0: RLIMIT_FSIZE around the next requests (fault stream)
+	future     string
+	past       string
 }
 
 var worldSeq int
@@ -250,7 +251,7 @@ func newWorld(t *tr.Trace, root string, def envDef) *world {
 	worldSeq++
 	base := filepath.Join(root, fmt.Sprintf("w%d", worldSeq))
 	w := &world{t: t, def: def, base: base, dir: filepath.Join(base, "groups"), data: filepath.Join(base, "data"),
-		secrets: map[string]bool{}, known: map[string]bool{}}
+		secrets: map[string]bool{}, known: map[string]bool{}, faultLimit: -1}
 	now := time.Now()
 	w.future = now.Add(24 * time.Hour).UTC().Format(time.RFC3339)
 	w.past = now.Add(-24 * time.Hour).UTC().Format(time.RFC3339)
